@@ -971,13 +971,43 @@ func ruleC15Range(cx *Ctx) {
 	}
 	name := funcName(fn)
 	hf := newHeldFlow(fn, bucketMuOp(cx))
-	for i, c := range paramCalls(fn, 1) {
-		cx.R.Check(!hf.anyHeld(c), rule, name, fmt.Sprintf("callback#%d outside lock", i+1), cx.P.where(c), "the user function is called with no bucket lock held (it may re-enter the map)")
+	nCb := 0
+	for _, c := range paramCalls(fn, 1) {
+		nCb++
+		cx.R.Check(!hf.anyHeld(c), rule, name, fmt.Sprintf("callback#%d outside lock", nCb), cx.P.where(c), "the user function is called with no bucket lock held (it may re-enter the map)")
 	}
 	n := 0
 	for _, a := range nodeSlotAccesses(cx, fn) {
 		n++
 		cx.R.Check(hf.anyHeld(a.in), rule, name, fmt.Sprintf("slot read#%d under lock", n), cx.P.where(a.in), "bucket slots are snapshotted under the root-bucket lock")
+	}
+	// helpers Range delegates to (snapshot / visit steps): the same two obligations, the lock state at the call site counted in
+	allInstrs(fn, func(site ssa.Instruction) {
+		g := calleeOf(site)
+		if g == nil || g.Pkg == nil || !strings.HasSuffix(g.Pkg.Pkg.Path(), hmPkg) || len(origin(g).Blocks) == 0 {
+			return
+		}
+		g = origin(g)
+		hg := newHeldFlow(g, bucketMuOp(cx))
+		siteHeld := hf.anyHeld(site)
+		// which parameters of g receive Range's callback
+		cc := callCommon(site)
+		for i, arg := range cc.Args {
+			if arg != ssa.Value(bparam(fn, 1)) || i >= len(g.Params) {
+				continue
+			}
+			for _, c := range paramCalls(g, i) {
+				nCb++
+				cx.R.Check(!hg.anyHeld(c) && !siteHeld, rule, funcName(g), fmt.Sprintf("callback#%d outside lock", nCb), cx.P.where(c), "the user function is called with no bucket lock held (it may re-enter the map)")
+			}
+		}
+		for _, a := range nodeSlotAccesses(cx, g) {
+			n++
+			cx.R.Check(hg.anyHeld(a.in) || siteHeld, rule, funcName(g), fmt.Sprintf("slot read#%d under lock", n), cx.P.where(a.in), "bucket slots are snapshotted under the root-bucket lock")
+		}
+	})
+	if nCb == 0 {
+		cx.R.Violate(rule, name, "callback", cx.P.Pos(fn.Pos()), "NOT SATISFIED: Range no longer calls its function argument (directly or in a helper)")
 	}
 	// the cache's node iterator over Range yields only alive, unexpired nodes: C03.filter (listed under C15)
 }
